@@ -80,6 +80,21 @@ func c07Block(c *Ctx, r *Rng, cols []blockCol, rows, rev int) {
 			R.Violate(Violation{Kind: "oracle", Key: "prefix-accepted-typed", What: fmt.Sprintf("a proper prefix (%d of %d bytes) of a block decoded without error into typed targets", k, len(enc)), Case: cs})
 			return
 		}
+		if rows == 0 && len(cols) > 0 {
+			// an empty typed target may receive a header block (columns, no rows): the column descriptors are still consumed
+			var b3 proto.Block
+			var e3 error
+			if pn, msg := safely(func() { e3 = b3.DecodeBlock(proto.NewReader(bytes.NewReader(p)), rev, proto.Results{}) }); pn {
+				cs["cut"] = k
+				R.Violate(Violation{Kind: "oracle", Key: "prefix-panic", What: "decode of a prefix into an empty typed target panicked: " + msg, Case: cs})
+				return
+			}
+			if e3 == nil {
+				cs["cut"] = k
+				R.Violate(Violation{Kind: "oracle", Key: "prefix-accepted-empty-target", What: fmt.Sprintf("a proper prefix (%d of %d bytes) of a header block decoded without error into an empty typed target", k, len(enc)), Case: cs})
+				return
+			}
+		}
 		if allInferable {
 			var auto proto.Results
 			var b2 proto.Block
@@ -235,6 +250,33 @@ func runC07(c *Ctx) {
 			if err == nil {
 				c07Block(c, r, cols, rows, 54460)
 			}
+		}
+	}
+	// String as the last column with long values at the end (the decoder's buffer has to grow while reading them)
+	for _, lens := range [][]int{{3, 200}, {130, 5000}, {0, 128}, {4096, 1, 300}, {127, 129, 1000, 1000}} {
+		for _, lead := range []bool{false, true} {
+			var vals []string
+			for _, n := range lens {
+				vals = append(vals, string(r.Bytes(n)))
+			}
+			st, _ := parseCH("String")
+			cn := strCol(vals...)
+			cn.T = st
+			col, _ := newColumn(st)
+			if fillColumn(col, cn) != nil {
+				continue
+			}
+			cols := []blockCol{{name: "s", t: st, cn: cn, col: col}}
+			if lead {
+				u8, _ := parseCH("UInt8")
+				lc, err := buildCols(r, 1, len(lens), genOpts{}, func() *TNode { return u8 })
+				if err != nil {
+					continue
+				}
+				cols = append(lc, cols...)
+				cols[1].name = "c1"
+			}
+			c07Block(c, r, cols, len(lens), 54460)
 		}
 	}
 	revs := c17Revisions(false)
